@@ -539,6 +539,16 @@ func newSlim(keys []string, bytesValues [][]byte, opt *Opt) (*Slim, error) {
 			panic("wordStart smaller than o.fromKeyBit")
 		}
 
+		// Without InnerPrefix only the length of a single-branch run is stored,
+		// as a 16-bit count of 4-bit words(see encStep).
+		// A longer run can not be represented: refuse to build instead of
+		// building an index that can not find its own keys.
+		if !*opt.InnerPrefix && (wordStart-o.fromKeyBit)>>2 > 0xffff {
+			return nil, errors.Wrapf(ErrKeyTooLong,
+				"keys[%d] and keys[%d] share %d bits after bit %d, max: %d",
+				s, e-1, wordStart-o.fromKeyBit, o.fromKeyBit, 0xffff<<2)
+		}
+
 		ks := make([]string, 0)
 		for i := s; i < e; i++ {
 			if tokeep[i] {
